@@ -25,6 +25,31 @@ package state
 //   $nonce[c]   nonce of client c as stored in state
 //@ ghost $nonce (Str) Int
 
+//   $forkSet[k] / $forkRound[k]   an activation round has been recorded in state under trie key k / that round
+//   $blockRound                   round of the block being executed
+//@ ghost $forkSet (Str) Bool
+//@ ghost $forkRound (Str) Int
+//@ ghost $blockRound Int
+
+// ---------------------------------------------------------------- hard-fork activation (C43)
+
+// The activation round of a fork is the recorded one; a fork that cannot be read (never recorded,
+// or a read error) activates "never" (MaxInt64).
+//@ func GetRoundByName
+//@   prop C43
+//@   ensures[recorded-round] result1 == nil ==> $forkSet["hardfork:" + name] && result0 == $forkRound["hardfork:" + name]
+//@   ensures[unreadable-never] result1 != nil ==> result0 == MaxInt64
+//@   modifies nothing
+
+// WithActivation runs `before` only for a block strictly before the recorded round (or when the
+// record could not be read), and `after` only when a round is recorded and the block is at or
+// past it.
+//@ func WithActivation
+//@   prop C43
+//@   requires $blockRound < MaxInt64
+//@   at-call before assert[pre-fork-rules-only-before-round] err != nil || $blockRound < $forkRound["hardfork:" + name]
+//@   at-call after assert[post-fork-rules-only-from-round] err == nil && $forkSet["hardfork:" + name] && $blockRound >= $forkRound["hardfork:" + name]
+
 // GetClientState returns a private copy of the client's state; a client unknown to the state has
 // balance 0 and nonce 0 (util.ErrValueNotPresent, with a usable empty state).
 //@ iface 0chain.net/chaincore/chain/state.StateContextI.GetClientState
@@ -83,6 +108,9 @@ package state
 //@ iface 0chain.net/chaincore/chain/state.CommonStateContextI.GetTrieNode
 //@   params self key v
 //@   modifies payload(v).$all
+// hard-fork records (C43): a successful read of a *HardFork yields the round recorded under that key;
+// a key under which no round was ever recorded cannot be read successfully
+//@   ensures result == nil && typeis(v, "*0chain.net/chaincore/chain/state.HardFork") ==> $forkSet[key] && payload(v, HardFork).round == $forkRound[key]
 
 //@ iface 0chain.net/chaincore/chain/state.StateContextI.GetTransaction
 //@   params self
@@ -91,6 +119,7 @@ package state
 //@ iface 0chain.net/chaincore/chain/state.CommonStateContextI.GetBlock
 //@   params self
 //@   pure
+//@   ensures result != nil && result.Round == $blockRound
 
 //@ iface 0chain.net/chaincore/chain/state.StateContextI.EmitEvent
 //@   params self eventType eventTag index data appender
